@@ -15,7 +15,7 @@ OPT_TEXT = st.one_of(st.none(), st.just(''), TEXT, NASTY)
 
 
 @st.composite
-def payload(draw, max_sigs=12, allow_big=False, min_sigs=1):
+def payload(draw, max_sigs=12, allow_big=False, min_sigs=1, allow_medium=False):
 	k = draw(st.one_of(st.integers(1, 32), st.sampled_from([4, 5, 8, 9, 16, 17, 31, 32]), st.integers(1, 12)))
 	prefix = draw(st.text(alphabet='ACGT', min_size=1, max_size=8))
 	n = draw(st.integers(min_sigs, max_sigs))
@@ -33,6 +33,10 @@ def payload(draw, max_sigs=12, allow_big=False, min_sigs=1):
 		sigs.append([ln, draw(st.integers(0, 2 ** 20)), draw(st.sampled_from(['rand', 'rand', 'top', 'bottom']))])
 	if allow_big and draw(st.integers(0, 7)) == 7:
 		sigs = [[draw(st.integers(100000, 300000)), draw(st.integers(0, 99)), 'rand'] for _ in range(draw(st.integers(2, 6)))]
+		k = max(k, 12)
+	if allow_medium and draw(st.integers(0, 39)) == 39:
+		# more values than any plausible read-ahead / write buffer (64 Ki elements), still cheap to build
+		sigs = [[draw(st.integers(15000, 40000)), draw(st.integers(0, 99)), 'rand'] for _ in range(draw(st.integers(3, 6)))]
 		k = max(k, 12)
 	n = len(sigs)
 	idkind = draw(st.sampled_from(['none', 'str', 'none', 'i8', 'u8', 'str', 'none']))
@@ -149,6 +153,13 @@ def compare_loaded(np, loaded, p, spec, arrays, exp_ids, exp_meta, Violation, ca
 		got = getattr(m, f)
 		if got != exp_meta[f] or type(got) is not type(exp_meta[f]):
 			raise Violation('meta', f'loaded meta.{f} = {got!r}, written {exp_meta[f]!r}', case)
+	kept = [loaded[i] for i in range(n)]          # hold on to every signature, then read the collection again in other ways
+	_ = [loaded[n - 1 - i] for i in range(n)]
+	_ = list(loaded)
+	for i in range(n):
+		if not isinstance(kept[i], np.ndarray) or not np.array_equal(kept[i], arrays[i]):
+			raise Violation('signature_aliasing', f'signature {i} obtained earlier changed (or was wrong) after later reads of the same collection: '
+			                f'{kept[i][:6].tolist() if hasattr(kept[i], "tolist") else kept[i]!r}... vs written {arrays[i][:6].tolist()}...', case)
 	for i in range(n):
 		g = loaded[i]
 		if not isinstance(g, np.ndarray) or g.dtype != want_dt or not np.array_equal(g, arrays[i]):
